@@ -112,7 +112,10 @@ def check(run):
     run.ev(len(many))
     run.nt(('many', len(many)))
     if not (np.array_equal(a, minor[many], equal_nan=True) and np.array_equal(b, middle[many], equal_nan=True) and np.array_equal(c, major[many], equal_nan=True)):
-        bad = int(np.nonzero(~(np.isclose(c, major[many]).all(axis=1)))[0][0]) if c.shape == major[many].shape else -1
+        bad = -1
+        if a.shape == b.shape == c.shape == major[many].shape:
+            rows = np.nonzero(~((a == minor[many]) | np.isnan(minor[many])).all(axis=1) | ~((b == middle[many]) | np.isnan(middle[many])).all(axis=1) | ~((c == major[many]) | np.isnan(major[many])).all(axis=1))[0]
+            bad = int(rows[0]) if len(rows) else -1
         run.violation('euler-batch-dependence', dict(problem='batch of more than 65536 codes differs', n=len(many), first_bad_row=bad))
     # the codes may arrive in any integer dtype that can hold them
     for dt in (np.uint16, np.int32, np.int64, np.uint32, np.uint64):
